@@ -41,7 +41,7 @@ def body_nodoc(fn):
 
 
 
-ALL = ("tables", "gates", "pauli", "wmiconfig")   # every translator module in harness/translators/ that setup.sh should run
+ALL = ("tables", "gates", "pauli", "wmiconfig", "vqe")   # every translator module in harness/translators/ that setup.sh should run
 
 
 def regenerate(which=ALL):
